@@ -47,9 +47,9 @@ def parse_cases(out):
 
 def run(c):
     quick = c.tier == "quick"
-    c.rule = ("one case = one (world, sender class, transaction shape) enumerated by TLC from Admission.tla, in one seeded concretisation, sent "
+    c.rule = ("one case = one (world, sender class, transaction shape) enumerated by TLC from Admission.tla, in its seeded concretisations (1 quick, 2 thorough), sent "
               "through verifyTx, validateTx and (if really admitted) executeTx in both execution modes; plus, after every successfully executed "
-              "case, the state readers and every probe transaction by two senders on the committed state; plus seeded byte-level mutations of "
+              "case, the state readers and the probe transactions of the same contract on the committed state (next block and a day later); plus seeded byte-level mutations of "
               "governance payloads; distinct = distinct (world, sender, shape)")
     c.assumptions = ["in-memory key-value store (aergo-lib memorydb) stands for the disk store",
                      "pure-Go stub for the contract VM (overlay); governance transactions do not reach it",
@@ -80,7 +80,7 @@ def run(c):
     probes = sorted(probes, key=lambda x: json.dumps(x, sort_keys=True))
     for p in probes:
         p.update(w="", s="", pd=[])
-    inp = {"worlds": worlds, "cases": cases, "probes": probes, "variants": 1 if quick else 3, "fuzz": 3000 if quick else 40000}
+    inp = {"worlds": worlds, "cases": cases, "probes": probes, "variants": 1 if quick else 2, "fuzz": 3000 if quick else 40000}
     inpath = os.path.join(c.work, "admission_in.json")
     json.dump(inp, open(inpath, "w"))
     outpath = os.path.join(c.work, "admission_out.json")
